@@ -118,6 +118,12 @@ SnapRow(d, row) == [m |-> row.m, rid |-> d.msgs[row.m].rid, uid |-> row.uid, rec
 \* simulation draws one argument value per step (TLC would otherwise enumerate every successor of the scheduled
 \* operation at every step); the exhaustive runs range over the whole domain
 Arg(S) == IF Record /\ S # {} THEN {RandomElement(S)} ELSE S
+\* the same, drawing from the subset G (arguments the operation can act on) three times out of four
+ArgP(S, G) == IF Record /\ S # {} THEN {RandomElement(IF G # {} /\ RandomElement(1..4) > 1 THEN G ELSE S)} ELSE S
+
+ListsOver(S) == {l \in MsgLists : l # <<>> /\ Range(l) \subseteq S}
+FreeRids == {r \in BoxRids : BoxByRid(db, r) = {}}
+FreeNames == {n \in BoxNames : BoxByName(db, n) = {}}
 
 \* box ids offered as arguments: every id handed out so far (existing or deleted) and the next one (never created)
 BoxArgs == 1..db.nextBox
@@ -137,6 +143,8 @@ Card(S) == Cardinality(S)
 -----------------------------------------------------------------------------
 (* step bookkeeping *)
 
+\* cheap guard evaluated before the arguments of an operation are drawn
+On(op) == op \in Ops /\ (Record => nextop = op)
 \* simulation: a behaviour has MaxSteps steps; a transaction that is still open then is ended first
 Sched(op) == op \in Ops /\ (Record => nextop = op /\ (steps < MaxSteps \/ tx # "none"))
 
@@ -160,7 +168,9 @@ WriteOps == <<"CreateMailbox", "GetOrCreateMailbox", "GetOrCreateMailboxAlt", "C
   "MarkMessageAsDeletedAndAssignRandomRemoteID", "MarkMessageAsDeletedWithRemoteID", "DeleteMessages",
   "UpdateRemoteMessageID", "AddFlagToMessages", "RemoveFlagFromMessages", "SetFlagsOnMessages",
   "AddDeletedSubscription", "RemoveDeletedSubscriptionWithName", "StoreConnectorSettings">>
-AllOps == Range(TxOps) \cup Range(ReadOps) \cup Range(WriteOps)
+ReadOpSet == Range(ReadOps)
+WriteOpSet == Range(WriteOps)
+AllOps == Range(TxOps) \cup ReadOpSet \cup WriteOpSet
 
 Weight(op) ==
   CASE op = "BeginWrite" -> 30
@@ -168,7 +178,7 @@ Weight(op) ==
     [] op = "AbortError" -> 5
     [] op = "AbortPanic" -> 3
     [] op \in {"CreateMailbox", "CreateMessages", "AddMessagesToMailbox", "CreateMessageAndAddToMailbox"} -> 4
-    [] op \in Range(WriteOps) -> 2
+    [] op \in WriteOpSet -> 2
     [] OTHER -> 1
 RECURSIVE Rep(_, _)
 Rep(x, n) == IF n = 0 THEN <<>> ELSE <<x>> \o Rep(x, n - 1)
@@ -176,8 +186,8 @@ RECURSIVE WheelOf(_, _)
 WheelOf(s, i) == IF i > Len(s) THEN <<>>
                  ELSE (IF s[i] \in Ops THEN Rep(s[i], Weight(s[i])) ELSE <<>>) \o WheelOf(s, i + 1)
 Wheel == WheelOf(TxOps \o ReadOps \o WriteOps, 1)
-IsRead(op) == op \in Range(ReadOps)
-IsWrite(op) == op \in Range(WriteOps)
+IsRead(op) == op \in ReadOpSet
+IsWrite(op) == op \in WriteOpSet
 \* can operation o be the next step when the transaction state is t with n operations after st steps
 App(o, t, n, st) ==
   /\ st >= MaxSteps => o \in {"Commit", "AbortError"}
@@ -193,8 +203,21 @@ Boost(d) ==
   (IF Card(ExBoxes(d)) < 2 THEN Rep("CreateMailbox", 60) \o Rep("GetOrCreateMailbox", 10) ELSE <<>>)
   \o (IF Card(ExMsgs(d)) < 2 THEN Rep("CreateMessages", 60) ELSE <<>>)
   \o (IF ExBoxes(d) # {} /\ ExMsgs(d) # {} /\ TotalRows(d) < 2 THEN Rep("AddMessagesToMailbox", 60) \o Rep("CreateMessageAndAddToMailbox", 20) ELSE <<>>)
+\* the wheels per transaction state are constants (TLC evaluates them once)
+WheelFor(t, n, st) == SelectSeq(Wheel, LAMBDA o : App(o, t, n, st))
+W_None == WheelFor("none", 0, 0)
+W_Write == WheelFor("write", 0, 0)
+W_Full == WheelFor("write", MaxTxOps, 0)
+W_Poisoned == WheelFor("poisoned", 0, 0)
+W_EndWrite == WheelFor("write", 0, MaxSteps)
+W_EndPoisoned == WheelFor("poisoned", 0, MaxSteps)
 Spin == IF Record
-        THEN LET w == SelectSeq(Wheel \o Boost(db'), LAMBDA o : o \in Ops /\ App(o, tx', nops', steps')) IN
+        THEN LET w == IF steps' >= MaxSteps
+                      THEN (IF tx' = "write" THEN W_EndWrite ELSE IF tx' = "poisoned" THEN W_EndPoisoned ELSE <<>>)
+                      ELSE IF tx' = "none" THEN W_None
+                      ELSE IF tx' = "poisoned" THEN W_Poisoned
+                      ELSE IF nops' >= MaxTxOps THEN W_Full
+                      ELSE W_Write \o SelectSeq(Boost(db'), LAMBDA o : o \in Ops) IN
              nextop' = IF Len(w) = 0 THEN "" ELSE w[RandomElement(1..Len(w))]
         ELSE nextop' = nextop
 
@@ -245,105 +268,105 @@ Abort(op) ==
 -----------------------------------------------------------------------------
 (* read operations: mailboxes *)
 
-R_MailboxExistsWithID == \E b \in Arg(BoxArgs) :
+R_MailboxExistsWithID == On("MailboxExistsWithID") /\ \E b \in ArgP(BoxArgs, ExBoxes(db)) :
   DoRead("MailboxExistsWithID", [b |-> b], Ok(Ex(db, b)), Sh(0, 0, HM(Ex(db, b))))
 
-R_MailboxExistsWithRemoteID == \E r \in Arg(BoxRids) :
+R_MailboxExistsWithRemoteID == On("MailboxExistsWithRemoteID") /\ \E r \in Arg(BoxRids) :
   DoRead("MailboxExistsWithRemoteID", [r |-> r], Ok(BoxByRid(db, r) # {}), Sh(0, 0, HM(BoxByRid(db, r) # {})))
 
-R_MailboxExistsWithName == \E n \in Arg(BoxNames) :
+R_MailboxExistsWithName == On("MailboxExistsWithName") /\ \E n \in Arg(BoxNames) :
   DoRead("MailboxExistsWithName", [n |-> n], Ok(BoxByName(db, n) # {}), Sh(0, 0, HM(BoxByName(db, n) # {})))
 
-R_GetMailboxIDFromRemoteID == \E r \in Arg(BoxRids) :
+R_GetMailboxIDFromRemoteID == On("GetMailboxIDFromRemoteID") /\ \E r \in Arg(BoxRids) :
   LET S == BoxByRid(db, r) IN
   DoRead("GetMailboxIDFromRemoteID", [r |-> r], IF S = {} THEN NotFound ELSE Ok(Pick(S)), Sh(0, 0, HM(S # {})))
 
-R_GetMailboxName == \E b \in Arg(BoxArgs) :
+R_GetMailboxName == On("GetMailboxName") /\ \E b \in ArgP(BoxArgs, ExBoxes(db)) :
   DoRead("GetMailboxName", [b |-> b], IF Ex(db, b) THEN Ok(db.mb[b].name) ELSE NotFound, Sh(0, 0, HM(Ex(db, b))))
 
-R_GetMailboxNameWithRemoteID == \E r \in Arg(BoxRids) :
+R_GetMailboxNameWithRemoteID == On("GetMailboxNameWithRemoteID") /\ \E r \in Arg(BoxRids) :
   LET S == BoxByRid(db, r) IN
   DoRead("GetMailboxNameWithRemoteID", [r |-> r], IF S = {} THEN NotFound ELSE Ok(db.mb[Pick(S)].name), Sh(0, 0, HM(S # {})))
 
-R_GetMailboxMessageIDPairs == \E b \in Arg(BoxArgs) :
+R_GetMailboxMessageIDPairs == On("GetMailboxMessageIDPairs") /\ \E b \in ArgP(BoxArgs, ExBoxes(db)) :
   DoRead("GetMailboxMessageIDPairs", [b |-> b],
          IF Ex(db, b) THEN Ok({[m |-> m, rid |-> db.msgs[m].rid] : m \in RowMsgs(db, b)}) ELSE Err,
          IF Ex(db, b) THEN Sh(Card(RowMsgs(db, b)), 0, "hit") ELSE Sh(0, 0, "miss"))
 
-R_GetAllMailboxesWithAttr ==
+R_GetAllMailboxesWithAttr == On("GetAllMailboxesWithAttr") /\
   DoRead("GetAllMailboxesWithAttr", [x |-> ""],
          Ok({[mb |-> MbRec(db, b), at |-> db.mb[b].at] : b \in ExBoxes(db)}), Sh(Card(ExBoxes(db)), 0, ""))
 
-R_GetAllMailboxesAsRemoteIDs ==
+R_GetAllMailboxesAsRemoteIDs == On("GetAllMailboxesAsRemoteIDs") /\
   DoRead("GetAllMailboxesAsRemoteIDs", [x |-> ""], Ok({db.mb[b].rid : b \in ExBoxes(db)}), Sh(Card(ExBoxes(db)), 0, ""))
 
-R_GetMailboxByName == \E n \in Arg(BoxNames) :
+R_GetMailboxByName == On("GetMailboxByName") /\ \E n \in Arg(BoxNames) :
   LET S == BoxByName(db, n) IN
   DoRead("GetMailboxByName", [n |-> n], IF S = {} THEN NotFound ELSE Ok(MbRec(db, Pick(S))), Sh(0, 0, HM(S # {})))
 
-R_GetMailboxByID == \E b \in Arg(BoxArgs) :
+R_GetMailboxByID == On("GetMailboxByID") /\ \E b \in ArgP(BoxArgs, ExBoxes(db)) :
   DoRead("GetMailboxByID", [b |-> b], IF Ex(db, b) THEN Ok(MbRec(db, b)) ELSE NotFound, Sh(0, 0, HM(Ex(db, b))))
 
-R_GetMailboxByRemoteID == \E r \in Arg(BoxRids) :
+R_GetMailboxByRemoteID == On("GetMailboxByRemoteID") /\ \E r \in Arg(BoxRids) :
   LET S == BoxByRid(db, r) IN
   DoRead("GetMailboxByRemoteID", [r |-> r], IF S = {} THEN NotFound ELSE Ok(MbRec(db, Pick(S))), Sh(0, 0, HM(S # {})))
 
 RecentMsgs(d, b) == {Rows(d, b)[i].m : i \in {j \in DOMAIN Rows(d, b) : Rows(d, b)[j].rec}}
 
-R_GetMailboxRecentCount == \E b \in Arg(BoxArgs) :
+R_GetMailboxRecentCount == On("GetMailboxRecentCount") /\ \E b \in ArgP(BoxArgs, ExBoxes(db)) :
   DoRead("GetMailboxRecentCount", [b |-> b], IF Ex(db, b) THEN Ok(RecentMsgs(db, b)) ELSE Err,
          IF Ex(db, b) THEN Sh(Card(RowMsgs(db, b)), Card(RecentMsgs(db, b)), "hit") ELSE Sh(0, 0, "miss"))
 
-R_GetMailboxMessageCount == \E b \in Arg(BoxArgs) :
+R_GetMailboxMessageCount == On("GetMailboxMessageCount") /\ \E b \in ArgP(BoxArgs, ExBoxes(db)) :
   DoRead("GetMailboxMessageCount", [b |-> b], IF Ex(db, b) THEN Ok(RowMsgs(db, b)) ELSE Err,
          IF Ex(db, b) THEN Sh(Card(RowMsgs(db, b)), 0, "hit") ELSE Sh(0, 0, "miss"))
 
-R_GetMailboxMessageCountWithRemoteID == \E r \in Arg(BoxRids) :
+R_GetMailboxMessageCountWithRemoteID == On("GetMailboxMessageCountWithRemoteID") /\ \E r \in Arg(BoxRids) :
   LET S == BoxByRid(db, r) IN
   DoRead("GetMailboxMessageCountWithRemoteID", [r |-> r], IF S = {} THEN NotFound ELSE Ok(RowMsgs(db, Pick(S))),
          IF S = {} THEN Sh(0, 0, "miss") ELSE Sh(Card(RowMsgs(db, Pick(S))), 0, "hit"))
 
-R_GetMailboxFlags == \E b \in Arg(BoxArgs) :
+R_GetMailboxFlags == On("GetMailboxFlags") /\ \E b \in ArgP(BoxArgs, ExBoxes(db)) :
   DoRead("GetMailboxFlags", [b |-> b], Ok(IF Ex(db, b) THEN db.mb[b].fl ELSE {}),
          IF Ex(db, b) THEN Sh(Card(db.mb[b].fl), 0, "hit") ELSE Sh(0, 0, "miss"))
 
-R_GetMailboxPermanentFlags == \E b \in Arg(BoxArgs) :
+R_GetMailboxPermanentFlags == On("GetMailboxPermanentFlags") /\ \E b \in ArgP(BoxArgs, ExBoxes(db)) :
   DoRead("GetMailboxPermanentFlags", [b |-> b], Ok(IF Ex(db, b) THEN db.mb[b].pf ELSE {}),
          IF Ex(db, b) THEN Sh(Card(db.mb[b].pf), 0, "hit") ELSE Sh(0, 0, "miss"))
 
-R_GetMailboxAttributes == \E b \in Arg(BoxArgs) :
+R_GetMailboxAttributes == On("GetMailboxAttributes") /\ \E b \in ArgP(BoxArgs, ExBoxes(db)) :
   DoRead("GetMailboxAttributes", [b |-> b], Ok(IF Ex(db, b) THEN db.mb[b].at ELSE {}),
          IF Ex(db, b) THEN Sh(Card(db.mb[b].at), 0, "hit") ELSE Sh(0, 0, "miss"))
 
 \* the next uid of a mailbox that does not exist is not judged (the code answers 1)
-R_GetMailboxUID == \E b \in Arg(BoxArgs) :
+R_GetMailboxUID == On("GetMailboxUID") /\ \E b \in ArgP(BoxArgs, ExBoxes(db)) :
   DoRead("GetMailboxUID", [b |-> b], IF Ex(db, b) THEN Ok(db.mb[b].next) ELSE Unjudged,
          IF Ex(db, b) THEN Sh(Card(RowMsgs(db, b)), 0, IF db.mb[b].next = 1 THEN "fresh" ELSE "used") ELSE Sh(0, 0, "miss"))
 
-R_GetMailboxMessageCountAndUID == \E b \in Arg(BoxArgs) :
+R_GetMailboxMessageCountAndUID == On("GetMailboxMessageCountAndUID") /\ \E b \in ArgP(BoxArgs, ExBoxes(db)) :
   DoRead("GetMailboxMessageCountAndUID", [b |-> b],
          IF Ex(db, b) THEN Ok([cnt |-> RowMsgs(db, b), uid |-> db.mb[b].next]) ELSE Err,
          IF Ex(db, b) THEN Sh(Card(RowMsgs(db, b)), 0, IF db.mb[b].next = 1 THEN "fresh" ELSE "used") ELSE Sh(0, 0, "miss"))
 
-R_GetMailboxMessageForNewSnapshot == \E b \in Arg(BoxArgs) :
+R_GetMailboxMessageForNewSnapshot == On("GetMailboxMessageForNewSnapshot") /\ \E b \in ArgP(BoxArgs, ExBoxes(db)) :
   DoRead("GetMailboxMessageForNewSnapshot", [b |-> b],
          IF Ex(db, b) THEN Ok([seq |-> [i \in DOMAIN Rows(db, b) |-> SnapRow(db, Rows(db, b)[i])]]) ELSE Err,
          IF Ex(db, b) THEN Sh(Len(Rows(db, b)), 0, "hit") ELSE Sh(0, 0, "miss"))
 
-R_MailboxTranslateRemoteIDs == \E l \in Arg(RidLists) :
+R_MailboxTranslateRemoteIDs == On("MailboxTranslateRemoteIDs") /\ \E l \in Arg(RidLists) :
   LET hit == {b \in ExBoxes(db) : db.mb[b].rid \in Range(l)} IN
   DoRead("MailboxTranslateRemoteIDs", [rl |-> l], Ok(hit), Sh(Len(l), Card(hit), ""))
 
 \* an empty list asks nothing (no statement), whatever the mailbox
-R_MailboxFilterContains == \E b \in Arg(BoxArgs) : \E l \in Arg(MsgLists) :
+R_MailboxFilterContains == On("MailboxFilterContains") /\ \E b \in ArgP(BoxArgs, ExBoxes(db)) : \E l \in Arg(MsgLists) :
   LET hit == {m \in Range(l) : InBox(db, m, b)} IN
   DoRead("MailboxFilterContains", [b |-> b, ml |-> l],
          IF l = <<>> THEN Ok({}) ELSE IF Ex(db, b) THEN Ok(hit) ELSE Err, Sh(Len(l), Card(hit), HM(Ex(db, b))))
 
-R_GetMailboxCount ==
+R_GetMailboxCount == On("GetMailboxCount") /\
   DoRead("GetMailboxCount", [x |-> ""], Ok(Card(ExBoxes(db))), Sh(Card(ExBoxes(db)), 0, ""))
 
-R_GetAllMailboxesNameAndRemoteID ==
+R_GetAllMailboxesNameAndRemoteID == On("GetAllMailboxesNameAndRemoteID") /\
   DoRead("GetAllMailboxesNameAndRemoteID", [x |-> ""],
          Ok({[name |-> db.mb[b].name, rid |-> db.mb[b].rid] : b \in ExBoxes(db)}), Sh(Card(ExBoxes(db)), 0, ""))
 
@@ -352,58 +375,58 @@ R_GetAllMailboxesNameAndRemoteID ==
 
 MsgRec(d, m) == [m |-> m, rid |-> d.msgs[m].rid, del |-> d.msgs[m].del]
 
-R_MessageExists == \E m \in Arg(Msgs) :
+R_MessageExists == On("MessageExists") /\ \E m \in Arg(Msgs) :
   DoRead("MessageExists", [m |-> m], Ok(MEx(db, m)), Sh(0, 0, HM(MEx(db, m))))
 
-R_MessageExistsWithRemoteID == \E r \in Arg(MsgRids) :
+R_MessageExistsWithRemoteID == On("MessageExistsWithRemoteID") /\ \E r \in Arg(MsgRids) :
   DoRead("MessageExistsWithRemoteID", [r |-> r], Ok(MsgByRid(db, r) # {}), Sh(0, 0, HM(MsgByRid(db, r) # {})))
 
-R_GetMessageNoEdges == \E m \in Arg(Msgs) :
+R_GetMessageNoEdges == On("GetMessageNoEdges") /\ \E m \in Arg(Msgs) :
   DoRead("GetMessageNoEdges", [m |-> m], IF MEx(db, m) THEN Ok(MsgRec(db, m)) ELSE NotFound, Sh(0, 0, HM(MEx(db, m))))
 
-R_GetTotalMessageCount ==
+R_GetTotalMessageCount == On("GetTotalMessageCount") /\
   DoRead("GetTotalMessageCount", [x |-> ""], Ok(ExMsgs(db)), Sh(Card(ExMsgs(db)), 0, ""))
 
-R_GetMessageRemoteID == \E m \in Arg(Msgs) :
+R_GetMessageRemoteID == On("GetMessageRemoteID") /\ \E m \in Arg(Msgs) :
   DoRead("GetMessageRemoteID", [m |-> m], IF MEx(db, m) THEN Ok(db.msgs[m].rid) ELSE NotFound, Sh(0, 0, HM(MEx(db, m))))
 
-R_GetImportedMessageData == \E m \in Arg(Msgs) :
+R_GetImportedMessageData == On("GetImportedMessageData") /\ \E m \in Arg(Msgs) :
   DoRead("GetImportedMessageData", [m |-> m],
          IF MEx(db, m) THEN Ok([msg |-> MsgRec(db, m), fl |-> db.msgs[m].fl]) ELSE NotFound,
          Sh(IF MEx(db, m) THEN Card(db.msgs[m].fl) ELSE 0, 0, HM(MEx(db, m))))
 
 \* date and size are opaque: the reply names the message whose date and size must come back
-R_GetMessageDateAndSize == \E m \in Arg(Msgs) :
+R_GetMessageDateAndSize == On("GetMessageDateAndSize") /\ \E m \in Arg(Msgs) :
   DoRead("GetMessageDateAndSize", [m |-> m], IF MEx(db, m) THEN Ok(m) ELSE NotFound, Sh(0, 0, HM(MEx(db, m))))
 
-R_GetMessageMailboxIDs == \E m \in Arg(Msgs) :
+R_GetMessageMailboxIDs == On("GetMessageMailboxIDs") /\ \E m \in Arg(Msgs) :
   LET S == {e.b : e \in {x \in db.m2b : x.m = m}} IN
   DoRead("GetMessageMailboxIDs", [m |-> m], Ok(S), Sh(Card(S), 0, HM(MEx(db, m))))
 
-R_GetMessagesFlags == \E l \in Arg(MsgLists) :
+R_GetMessagesFlags == On("GetMessagesFlags") /\ \E l \in Arg(MsgLists) :
   LET hit == {m \in Range(l) : MEx(db, m)} IN
   DoRead("GetMessagesFlags", [ml |-> l], Ok({[m |-> m, rid |-> db.msgs[m].rid, fl |-> db.msgs[m].fl] : m \in hit}),
          Sh(Len(l), Card(hit), ""))
 
-R_GetMessageIDsMarkedAsDelete ==
+R_GetMessageIDsMarkedAsDelete == On("GetMessageIDsMarkedAsDelete") /\
   LET S == {m \in ExMsgs(db) : db.msgs[m].del} IN
   DoRead("GetMessageIDsMarkedAsDelete", [x |-> ""], Ok(S), Sh(Card(ExMsgs(db)), Card(S), ""))
 
-R_GetMessageIDFromRemoteID == \E r \in Arg(MsgRids) :
+R_GetMessageIDFromRemoteID == On("GetMessageIDFromRemoteID") /\ \E r \in Arg(MsgRids) :
   LET S == MsgByRid(db, r) IN
   DoRead("GetMessageIDFromRemoteID", [r |-> r], IF S = {} THEN NotFound ELSE Ok(Pick(S)), Sh(0, 0, HM(S # {})))
 
-R_GetMessageDeletedFlag == \E m \in Arg(Msgs) :
+R_GetMessageDeletedFlag == On("GetMessageDeletedFlag") /\ \E m \in Arg(Msgs) :
   DoRead("GetMessageDeletedFlag", [m |-> m], IF MEx(db, m) THEN Ok(db.msgs[m].del) ELSE NotFound,
          Sh(0, 0, IF MEx(db, m) THEN (IF db.msgs[m].del THEN "deleted" ELSE "kept") ELSE "miss"))
 
-R_GetAllMessagesIDsAsMap ==
+R_GetAllMessagesIDsAsMap == On("GetAllMessagesIDsAsMap") /\
   DoRead("GetAllMessagesIDsAsMap", [x |-> ""], Ok(ExMsgs(db)), Sh(Card(ExMsgs(db)), 0, ""))
 
-R_GetDeletedSubscriptionSet ==
+R_GetDeletedSubscriptionSet == On("GetDeletedSubscriptionSet") /\
   DoRead("GetDeletedSubscriptionSet", [x |-> ""], Ok(db.dsubs), Sh(Card(db.dsubs), 0, ""))
 
-R_GetConnectorSettings ==
+R_GetConnectorSettings == On("GetConnectorSettings") /\
   DoRead("GetConnectorSettings", [x |-> ""],
          Ok([value |-> IF db.settings = SNull THEN "" ELSE db.settings, has |-> db.settings # SNull]),
          Sh(0, 0, HM(db.settings # SNull)))
@@ -418,14 +441,14 @@ NewBox(d, r, n, fs, uv) ==
 NewBoxRec(d, r, n, uv) == [id |-> d.nextBox, rid |-> r, name |-> n, uv |-> uv, sub |-> TRUE]
 CreateTag(d, r, n) == IF BoxByRid(d, r) # {} THEN "remote-id-taken" ELSE IF BoxByName(d, n) # {} THEN "name-taken" ELSE "new"
 
-W_CreateMailbox == \E r \in Arg(BoxRids), n \in Arg(BoxNames), fs \in Arg(BoxFlagSets), uv \in Arg(UVs) :
+W_CreateMailbox == On("CreateMailbox") /\ \E r \in ArgP(BoxRids, FreeRids), n \in ArgP(BoxNames, FreeNames), fs \in Arg(BoxFlagSets), uv \in Arg(UVs) :
   LET tag == CreateTag(db, r, n) IN
   /\ db.nextBox <= MaxBox
   /\ DoWrite("CreateMailbox", [r |-> r, n |-> n, fs |-> fs, uv |-> uv],
              IF tag = "new" THEN Ok(NewBoxRec(db, r, n, uv)) ELSE Err, Sh(0, 0, tag), NewBox(db, r, n, fs, uv))
 
 \* returns the mailbox with that remote id if there is one (whatever its name), creates it otherwise
-GetOrCreate(op, withReply) == \E r \in Arg(BoxRids), n \in Arg(BoxNames), fs \in Arg(BoxFlagSets), uv \in Arg(UVs) :
+GetOrCreate(op, withReply) == On(op) /\ \E r \in ArgP(BoxRids, FreeRids), n \in ArgP(BoxNames, FreeNames), fs \in Arg(BoxFlagSets), uv \in Arg(UVs) :
   LET S == BoxByRid(db, r)
       tag == IF S # {} THEN "existing" ELSE CreateTag(db, r, n) IN
   /\ S # {} \/ db.nextBox <= MaxBox
@@ -439,7 +462,7 @@ W_GetOrCreateMailbox == GetOrCreate("GetOrCreateMailbox", TRUE)
 W_GetOrCreateMailboxAlt == GetOrCreate("GetOrCreateMailboxAlt", TRUE)
 W_CreateMailboxIfNotExists == GetOrCreate("CreateMailboxIfNotExists", FALSE)
 
-W_RenameMailboxWithRemoteID == \E r \in Arg(BoxRids), n \in Arg(BoxNames) :
+W_RenameMailboxWithRemoteID == On("RenameMailboxWithRemoteID") /\ \E r \in Arg(BoxRids), n \in Arg(BoxNames) :
   LET S == BoxByRid(db, r)
       tag == IF S = {} THEN "miss" ELSE IF BoxByName(db, n) \ S # {} THEN "name-taken"
              ELSE IF db.mb[Pick(S)].name = n THEN "same-name" ELSE "renamed" IN
@@ -450,7 +473,7 @@ W_RenameMailboxWithRemoteID == \E r \in Arg(BoxRids), n \in Arg(BoxNames) :
 DSClash(S, n, r) == \E e \in S : e.rid = r /\ e.name # n
 DSAdd(S, n, r) == {e \in S : e.name # n} \cup {[name |-> n, rid |-> r]}
 
-W_DeleteMailboxWithRemoteID == \E r \in Arg(BoxRids) :
+W_DeleteMailboxWithRemoteID == On("DeleteMailboxWithRemoteID") /\ \E r \in Arg(BoxRids) :
   LET S == BoxByRid(db, r)
       b == Pick(S)
       clash == S # {} /\ db.mb[b].sub /\ DSClash(db.dsubs, db.mb[b].name, r)
@@ -463,7 +486,7 @@ W_DeleteMailboxWithRemoteID == \E r \in Arg(BoxRids) :
                           !.dsubs = IF db.mb[b].sub THEN DSAdd(@, db.mb[b].name, r) ELSE @])
 
 \* an empty list adds nothing and asks nothing, whatever the mailbox
-W_AddMessagesToMailbox == \E b \in Arg(BoxArgs) : \E l \in Arg(MsgLists) :
+W_AddMessagesToMailbox == On("AddMessagesToMailbox") /\ \E b \in ArgP(BoxArgs, ExBoxes(db)) : \E l \in ArgP(MsgLists, ListsOver({m \in ExMsgs(db) : ~InBox(db, m, b)})) :
   LET ok == {m \in Range(l) : MEx(db, m) /\ ~InBox(db, m, b)}
       good == Ex(db, b) /\ ok = Range(l)
       n0 == IF Ex(db, b) THEN db.mb[b].next ELSE 1
@@ -479,7 +502,7 @@ W_AddMessagesToMailbox == \E b \in Arg(BoxArgs) : \E l \in Arg(MsgLists) :
 
 DropRows(rows, S) == SelectSeq(rows, LAMBDA row : row.m \notin S)
 
-W_RemoveMessagesFromMailbox == \E b \in Arg(BoxArgs) : \E l \in Arg(MsgLists) :
+W_RemoveMessagesFromMailbox == On("RemoveMessagesFromMailbox") /\ \E b \in ArgP(BoxArgs, ExBoxes(db)) : \E l \in Arg(MsgLists) :
   LET hit == {m \in Range(l) : InBox(db, m, b)} IN
   DoWrite("RemoveMessagesFromMailbox", [b |-> b, ml |-> l],
           IF l = <<>> THEN Done ELSE IF Ex(db, b) THEN Done ELSE Err, Sh(Len(l), Card(hit), HM(Ex(db, b))),
@@ -488,18 +511,18 @@ W_RemoveMessagesFromMailbox == \E b \in Arg(BoxArgs) : \E l \in Arg(MsgLists) :
 
 MapRows(rows, F(_)) == [i \in DOMAIN rows |-> F(rows[i])]
 
-W_ClearRecentFlagInMailboxOnMessage == \E b \in Arg(BoxArgs) : \E m \in Arg(Msgs) :
+W_ClearRecentFlagInMailboxOnMessage == On("ClearRecentFlagInMailboxOnMessage") /\ \E b \in ArgP(BoxArgs, ExBoxes(db)) : \E m \in Arg(Msgs) :
   DoWrite("ClearRecentFlagInMailboxOnMessage", [b |-> b, m |-> m], IF Ex(db, b) THEN Done ELSE Err,
           Sh(0, 0, IF ~Ex(db, b) THEN "miss" ELSE IF ~InBox(db, m, b) THEN "not-in-mailbox"
                    ELSE IF m \in RecentMsgs(db, b) THEN "recent" ELSE "not-recent"),
           [db EXCEPT !.mb[b].rows = MapRows(@, LAMBDA row : IF row.m = m THEN [row EXCEPT !.rec = FALSE] ELSE row)])
 
-W_ClearRecentFlagsInMailbox == \E b \in Arg(BoxArgs) :
+W_ClearRecentFlagsInMailbox == On("ClearRecentFlagsInMailbox") /\ \E b \in ArgP(BoxArgs, ExBoxes(db)) :
   DoWrite("ClearRecentFlagsInMailbox", [b |-> b], IF Ex(db, b) THEN Done ELSE Err,
           IF Ex(db, b) THEN Sh(Len(Rows(db, b)), Card(RecentMsgs(db, b)), "hit") ELSE Sh(0, 0, "miss"),
           [db EXCEPT !.mb[b].rows = MapRows(@, LAMBDA row : [row EXCEPT !.rec = FALSE])])
 
-W_SetMailboxMessagesDeletedFlag == \E b \in Arg(BoxArgs) : \E l \in Arg(MsgLists) : \E d \in Arg(BOOLEAN) :
+W_SetMailboxMessagesDeletedFlag == On("SetMailboxMessagesDeletedFlag") /\ \E b \in ArgP(BoxArgs, ExBoxes(db)) : \E l \in Arg(MsgLists) : \E d \in Arg(BOOLEAN) :
   LET hit == {m \in Range(l) : InBox(db, m, b)} IN
   DoWrite("SetMailboxMessagesDeletedFlag", [b |-> b, ml |-> l, d |-> d],
           IF l = <<>> THEN Done ELSE IF Ex(db, b) THEN Done ELSE Err,
@@ -508,27 +531,27 @@ W_SetMailboxMessagesDeletedFlag == \E b \in Arg(BoxArgs) : \E l \in Arg(MsgLists
           ELSE [db EXCEPT !.mb[b].rows = MapRows(@, LAMBDA row : IF row.m \in Range(l) THEN [row EXCEPT !.del = d] ELSE row)])
 
 \* no check that the mailbox exists: nothing to update is not an error
-W_SetMailboxSubscribed == \E b \in Arg(BoxArgs) : \E s \in Arg(BOOLEAN) :
+W_SetMailboxSubscribed == On("SetMailboxSubscribed") /\ \E b \in ArgP(BoxArgs, ExBoxes(db)) : \E s \in Arg(BOOLEAN) :
   DoWrite("SetMailboxSubscribed", [b |-> b, s |-> s], Done,
           Sh(0, 0, IF ~Ex(db, b) THEN "miss" ELSE IF s THEN "subscribe" ELSE "unsubscribe"),
           IF Ex(db, b) THEN [db EXCEPT !.mb[b].sub = s] ELSE db)
 
-W_UpdateRemoteMailboxID == \E b \in Arg(BoxArgs) : \E r \in Arg(BoxRids) :
+W_UpdateRemoteMailboxID == On("UpdateRemoteMailboxID") /\ \E b \in ArgP(BoxArgs, ExBoxes(db)) : \E r \in Arg(BoxRids) :
   LET tag == IF ~Ex(db, b) THEN "miss" ELSE IF BoxByRid(db, r) \ {b} # {} THEN "remote-id-taken"
              ELSE IF db.mb[b].rid = r THEN "same-id" ELSE "changed" IN
   DoWrite("UpdateRemoteMailboxID", [b |-> b, r |-> r], IF tag \in {"miss", "remote-id-taken"} THEN Err ELSE Done,
           Sh(0, 0, tag), [db EXCEPT !.mb[b].rid = r])
 
-W_SetMailboxUIDValidity == \E b \in Arg(BoxArgs) : \E uv \in Arg(UVs) :
+W_SetMailboxUIDValidity == On("SetMailboxUIDValidity") /\ \E b \in ArgP(BoxArgs, ExBoxes(db)) : \E uv \in Arg(UVs) :
   DoWrite("SetMailboxUIDValidity", [b |-> b, uv |-> uv], IF Ex(db, b) THEN Done ELSE Err, Sh(0, 0, HM(Ex(db, b))),
           [db EXCEPT !.mb[b].uv = uv])
 
 \* adding no flag at all changes nothing
-W_AddFlagsToAllMailboxes == \E F \in Arg(FlagSets) :
+W_AddFlagsToAllMailboxes == On("AddFlagsToAllMailboxes") /\ \E F \in Arg(FlagSets) :
   DoWrite("AddFlagsToAllMailboxes", [fl |-> F], Done, Sh(Card(F), Card(ExBoxes(db)), ""),
           [db EXCEPT !.mb = [b \in BoxIds |-> IF db.mb[b].ex THEN [db.mb[b] EXCEPT !.fl = @ \cup F] ELSE db.mb[b]]])
 
-W_AddPermFlagsToAllMailboxes == \E F \in Arg(FlagSets) :
+W_AddPermFlagsToAllMailboxes == On("AddPermFlagsToAllMailboxes") /\ \E F \in Arg(FlagSets) :
   DoWrite("AddPermFlagsToAllMailboxes", [fl |-> F], Done, Sh(Card(F), Card(ExBoxes(db)), ""),
           [db EXCEPT !.mb = [b \in BoxIds |-> IF db.mb[b].ex THEN [db.mb[b] EXCEPT !.pf = @ \cup F] ELSE db.mb[b]]])
 
@@ -538,13 +561,13 @@ W_AddPermFlagsToAllMailboxes == \E F \in Arg(FlagSets) :
 \* a new message m arrives with its home remote id (= m); remote ids are unique among messages
 CanCreate(d, S) == \A m \in S : ~MEx(d, m) /\ MsgByRid(d, m) = {}
 
-W_CreateMessages == \E l \in Arg(MsgLists) : \E F \in Arg(FlagSets) :
+W_CreateMessages == On("CreateMessages") /\ \E l \in ArgP(MsgLists, ListsOver(Msgs \ ExMsgs(db))) : \E F \in Arg(FlagSets) :
   LET ok == {m \in Range(l) : CanCreate(db, {m})} IN
   DoWrite("CreateMessages", [ml |-> l, fl |-> F], IF ok = Range(l) THEN Done ELSE Err, Sh(Len(l), Card(ok), ""),
           [db EXCEPT !.msgs = [m \in Msgs |-> IF m \in Range(l) THEN [ex |-> TRUE, rid |-> m, del |-> FALSE, fl |-> F]
                                               ELSE db.msgs[m]]])
 
-W_CreateMessageAndAddToMailbox == \E b \in Arg(BoxArgs) : \E m \in Arg(Msgs) : \E F \in Arg(FlagSets) :
+W_CreateMessageAndAddToMailbox == On("CreateMessageAndAddToMailbox") /\ \E b \in ArgP(BoxArgs, ExBoxes(db)) : \E m \in ArgP(Msgs, Msgs \ ExMsgs(db)) : \E F \in Arg(FlagSets) :
   LET good == CanCreate(db, {m}) /\ Ex(db, b)
       n0 == IF Ex(db, b) THEN db.mb[b].next ELSE 1 IN
   /\ good => n0 <= MaxUid
@@ -556,24 +579,24 @@ W_CreateMessageAndAddToMailbox == \E b \in Arg(BoxArgs) : \E m \in Arg(Msgs) : \
                         !.mb[b].next = @ + 1,
                         !.m2b = @ \cup {[m |-> m, b |-> b]}])
 
-W_MarkMessageAsDeleted == \E m \in Arg(Msgs) :
+W_MarkMessageAsDeleted == On("MarkMessageAsDeleted") /\ \E m \in Arg(Msgs) :
   DoWrite("MarkMessageAsDeleted", [m |-> m], Done, Sh(0, 0, HM(MEx(db, m))),
           IF MEx(db, m) THEN [db EXCEPT !.msgs[m].del = TRUE] ELSE db)
 
 \* domain of the operation: a message that has been removed from every mailbox (that is how gluon uses it; the
 \* remote id copied into mailbox rows would otherwise be left behind)
-W_MarkMessageAsDeletedAndAssignRandomRemoteID == \E m \in Arg(Msgs) :
+W_MarkMessageAsDeletedAndAssignRandomRemoteID == On("MarkMessageAsDeletedAndAssignRandomRemoteID") /\ \E m \in Arg(Msgs) :
   /\ BoxesOf(db, m) = {}
   /\ DoWrite("MarkMessageAsDeletedAndAssignRandomRemoteID", [m |-> m], Done, Sh(0, 0, HM(MEx(db, m))),
              IF MEx(db, m) THEN [db EXCEPT !.msgs[m].del = TRUE, !.msgs[m].rid = Rnd] ELSE db)
 
-W_MarkMessageAsDeletedWithRemoteID == \E r \in Arg(MsgRids) :
+W_MarkMessageAsDeletedWithRemoteID == On("MarkMessageAsDeletedWithRemoteID") /\ \E r \in Arg(MsgRids) :
   LET S == MsgByRid(db, r) IN
   DoWrite("MarkMessageAsDeletedWithRemoteID", [r |-> r], Done, Sh(0, 0, HM(S # {})),
           IF S # {} THEN [db EXCEPT !.msgs[Pick(S)].del = TRUE] ELSE db)
 
 \* a message that is still in a mailbox cannot be deleted (the mailbox row refers to it)
-W_DeleteMessages == \E l \in Arg(MsgLists) :
+W_DeleteMessages == On("DeleteMessages") /\ \E l \in ArgP(MsgLists, ListsOver({m \in Msgs : BoxesOf(db, m) = {}})) :
   LET hit == {m \in Range(l) : MEx(db, m)}
       held == {m \in hit : BoxesOf(db, m) # {}} IN
   DoWrite("DeleteMessages", [ml |-> l], IF held # {} THEN Err ELSE Done,
@@ -582,26 +605,26 @@ W_DeleteMessages == \E l \in Arg(MsgLists) :
                      !.m2b = {e \in @ : e.m \notin Range(l)}])
 
 \* sets the remote id of that message (one attribute of the message, wherever it is shown)
-W_UpdateRemoteMessageID == \E m \in Arg(Msgs) : \E r \in Arg(MsgRids) :
+W_UpdateRemoteMessageID == On("UpdateRemoteMessageID") /\ \E m \in ArgP(Msgs, ExMsgs(db)) : \E r \in Arg(MsgRids) :
   LET tag == IF ~MEx(db, m) THEN "miss" ELSE IF MsgByRid(db, r) \ {m} # {} THEN "remote-id-taken"
              ELSE IF db.msgs[m].rid = r THEN "same-id" ELSE "changed" IN
   DoWrite("UpdateRemoteMessageID", [m |-> m, r |-> r], IF tag \in {"miss", "remote-id-taken"} THEN Err ELSE Done,
           Sh(Card(BoxesOf(db, m)), 0, tag), [db EXCEPT !.msgs[m].rid = r])
 
 \* a flag can only be attached to an existing message
-W_AddFlagToMessages == \E l \in Arg(MsgLists) : \E f \in Arg(Flags) :
+W_AddFlagToMessages == On("AddFlagToMessages") /\ \E l \in ArgP(MsgLists, ListsOver(ExMsgs(db))) : \E f \in Arg(Flags) :
   LET hit == {m \in Range(l) : MEx(db, m)} IN
   DoWrite("AddFlagToMessages", [ml |-> l, f |-> f], IF hit = Range(l) THEN Done ELSE Err,
           Sh(Len(l), Card({m \in hit : f \notin db.msgs[m].fl}), IF hit = Range(l) THEN "" ELSE "unknown-message"),
           [db EXCEPT !.msgs = [m \in Msgs |-> IF m \in Range(l) THEN [db.msgs[m] EXCEPT !.fl = @ \cup {f}] ELSE db.msgs[m]]])
 
-W_RemoveFlagFromMessages == \E l \in Arg(MsgLists) : \E f \in Arg(Flags) :
+W_RemoveFlagFromMessages == On("RemoveFlagFromMessages") /\ \E l \in Arg(MsgLists) : \E f \in Arg(Flags) :
   LET hit == {m \in Range(l) : MEx(db, m)} IN
   DoWrite("RemoveFlagFromMessages", [ml |-> l, f |-> f], Done,
           Sh(Len(l), Card({m \in hit : f \in db.msgs[m].fl}), ""),
           [db EXCEPT !.msgs = [m \in Msgs |-> IF m \in hit THEN [db.msgs[m] EXCEPT !.fl = @ \ {f}] ELSE db.msgs[m]]])
 
-W_SetFlagsOnMessages == \E l \in Arg(MsgLists) : \E F \in Arg(FlagSets) :
+W_SetFlagsOnMessages == On("SetFlagsOnMessages") /\ \E l \in ArgP(MsgLists, ListsOver(ExMsgs(db))) : \E F \in Arg(FlagSets) :
   LET hit == {m \in Range(l) : MEx(db, m)}
       bad == F # {} /\ hit # Range(l) IN
   DoWrite("SetFlagsOnMessages", [ml |-> l, fl |-> F], IF bad THEN Err ELSE Done,
@@ -611,18 +634,18 @@ W_SetFlagsOnMessages == \E l \in Arg(MsgLists) : \E F \in Arg(FlagSets) :
 -----------------------------------------------------------------------------
 (* write operations: deleted subscriptions, settings *)
 
-W_AddDeletedSubscription == \E n \in Arg(BoxNames) : \E r \in Arg(BoxRids) :
+W_AddDeletedSubscription == On("AddDeletedSubscription") /\ \E n \in Arg(BoxNames) : \E r \in Arg(BoxRids) :
   LET clash == DSClash(db.dsubs, n, r)
       tag == IF clash THEN "remote-id-taken" ELSE IF \E e \in db.dsubs : e.name = n THEN "replace" ELSE "new" IN
   DoWrite("AddDeletedSubscription", [n |-> n, r |-> r], IF clash THEN Err ELSE Done, Sh(0, 0, tag),
           [db EXCEPT !.dsubs = DSAdd(@, n, r)])
 
-W_RemoveDeletedSubscriptionWithName == \E n \in Arg(BoxNames) :
+W_RemoveDeletedSubscriptionWithName == On("RemoveDeletedSubscriptionWithName") /\ \E n \in Arg(BoxNames) :
   LET S == {e \in db.dsubs : e.name = n} IN
   DoWrite("RemoveDeletedSubscriptionWithName", [n |-> n], Ok(Card(S)), Sh(0, 0, HM(S # {})),
           [db EXCEPT !.dsubs = @ \ S])
 
-W_StoreConnectorSettings == \E s \in Arg(SettingsVals) :
+W_StoreConnectorSettings == On("StoreConnectorSettings") /\ \E s \in Arg(SettingsVals) :
   DoWrite("StoreConnectorSettings", [s |-> s], Done, Sh(0, 0, IF db.settings = SNull THEN "first" ELSE "again"),
           [db EXCEPT !.settings = s])
 
